@@ -26,11 +26,28 @@ def _mesh():
 
 
 def _read(name, limit=24000):
-    p = os.path.join(REPO, "models", name)
+    # the bundled models are data, not code under test: a scratch copy of the package alone falls back to /repo/models
+    base = os.path.join(REPO, "models")
+    if not os.path.isdir(base):
+        base = "/repo/models"
+    p = os.path.join(base, name)
     if os.path.exists(p) and os.path.getsize(p) <= limit:
         with open(p, "rb") as f:
             return f.read()
     return None
+
+
+def nested_blocks_dxf(levels):
+    L = ["0", "SECTION", "2", "HEADER", "9", "$INSUNITS", "70", "1", "0", "ENDSEC", "0", "SECTION", "2", "BLOCKS"]
+    L += ["0", "BLOCK", "8", "0", "2", "B0", "70", "0", "10", "0", "20", "0", "0", "LINE", "8", "0", "10", "0", "20", "0", "11", "1", "21", "1", "0", "ENDBLK"]
+    for k in range(1, levels + 1):
+        L += ["0", "BLOCK", "8", "0", "2", f"B{k}", "70", "0", "10", "0", "20", "0"]
+        for dx in (0, 2**k):
+            L += ["0", "INSERT", "8", "0", "2", f"B{k - 1}", "10", str(dx), "20", "0"]
+        L += ["0", "ENDBLK"]
+    L += ["0", "ENDSEC", "0", "SECTION", "2", "ENTITIES", "0", "INSERT", "8", "0", "2", f"B{levels}", "10", "0", "20", "0",
+          "0", "LINE", "8", "0", "10", "0", "20", "0", "11", "3", "21", "4", "0", "ENDSEC", "0", "EOF"]
+    return ("\n".join(L) + "\n").encode("ascii")
 
 
 def seeds():
@@ -118,8 +135,13 @@ def seeds():
         pass
     for fmt, name in (("off", "whitespace.off"), ("off", "comments.off"), ("3dxml", "blocks.3dxml"), ("xaml", "plane.xaml"), ("xyz", "points_agisoft.xyz"),
                       ("ply", "points_ascii_with_lists.ply"), ("ply", "tet.ply"), ("obj", "joined_tetrahedra.obj"), ("obj", "negative_indices.obj"),
-                      ("obj", "polygonfaces.obj"), ("glb", "empty_nodes.glb"), ("stl", "unit_cube.STL"), ("zip", "ascii.stl.zip"), ("ply", "metadata.ply")):
+                      ("obj", "polygonfaces.obj"), ("glb", "empty_nodes.glb"), ("stl", "unit_cube.STL"), ("zip", "ascii.stl.zip"), ("ply", "metadata.ply"),
+                      ("glb", "BoxInterleaved.glb"), ("dxf", "2D/insert_r14.dxf")):
         add(fmt, _read(name))
+    # hand-written documents whose tables refer to each other: a chain of DXF blocks, each INSERTing the previous one twice
+    # (what is referenced may only be expanded in proportion to the input, whatever the reader does with nested references)
+    for depth in (6, 18):
+        add("dxf", nested_blocks_dxf(depth))
     _SEEDS = {k: v for k, v in S.items() if v}
     return _SEEDS
 
@@ -198,6 +220,20 @@ def mutate(data, fault, other=None):
             return out.getvalue()
         except (zipfile.BadZipFile, KeyError, OSError, RuntimeError):
             return data
+    if k == "glb_json":
+        # the fault is applied to the JSON chunk of a GLB container and the chunk / file lengths are written again, so
+        # the framing stays valid and the loader reaches the corrupted document
+        import struct
+
+        if n < 20 or data[:4] != b"glTF" or data[16:20] != b"JSON":
+            return data
+        jlen = struct.unpack("<I", data[12:16])[0]
+        if 20 + jlen > n:
+            return data
+        js = mutate(data[20 : 20 + jlen], fault[1], other)
+        js = js + b" " * ((4 - len(js) % 4) % 4)
+        rest = data[20 + jlen :]
+        return data[:8] + struct.pack("<I", 20 + len(js) + len(rest)) + struct.pack("<I", len(js)) + b"JSON" + js + rest
     if k == "frac_token":
         # the first token of the line that holds the byte at fraction f of the input is replaced
         pos = min(int(fault[1] * n), max(n - 1, 0))
